@@ -123,7 +123,11 @@ peg::parser! {
         pub(crate) rule arithmetic_expression() -> ast::UnexpandedArithmeticExpr =
             raw_expr:$(arithmetic_expression_piece()*) { ast::UnexpandedArithmeticExpr { value: raw_expr } }
 
-        rule arithmetic_expression_piece() =
+        // N.B. Memoized: an opening parenthesis is tried as the start of a balanced group first
+        // and as a lone token second; without the cache `((((((...a` with no closing parentheses
+        // takes time exponential in their number.
+        #[cache]
+        rule arithmetic_expression_piece() -> () =
             // Allow a parenthesized expression (with matching opening and closing parens).
             specific_operator("(") (!specific_operator(")") arithmetic_expression_piece())* specific_operator(")") {} /
             // Otherwise consume any token that's neither the normal end of the entire arithmetic expression, nor an
